@@ -1,12 +1,12 @@
 package disk
 
 import (
+	"fmt"
+	"github.com/buchgr/bazel-remote/v2/verifdrv/vlib"
 	"os"
 	"path/filepath"
 	"testing"
 	"time"
-	"fmt"
-	"github.com/buchgr/bazel-remote/v2/verifdrv/vlib"
 )
 
 func TestVfBench(t *testing.T) {
